@@ -451,11 +451,35 @@ class Intervals:
         if names.call_is(t, "core::cmp::min", "Ord::min", "usize::min", "u32::min", "u16::min", "u8::min") and len(args) == 2:
             a, b = self.iv_operand(st, args[0]), self.iv_operand(st, args[1])
             st[key_i] = Iv(min(a.lo, b.lo), min(a.hi, b.hi))
+            # min(x, y) <= x and <= y: kept as relations between the result and each argument's symbol (a length, a local)
+            if len(key_i) == 2:
+                self.rel_kill(st, key_i[1])
+                for x_ in args:
+                    sx = self.sym(x_)
+                    if sx is not None and sx != key_i:
+                        self.rel_add(st, "le", key_i, sx)
             return
         if names.call_is(t, "core::cmp::max", "Ord::max") and len(args) == 2:
             a, b = self.iv_operand(st, args[0]), self.iv_operand(st, args[1])
             st[key_i] = Iv(max(a.lo, b.lo), max(a.hi, b.hi))
             return
+        if names.call_is(t, "Option::map_or") and len(args) == 3 and getattr(self, "_depth", 0) < 2:
+            # `opt.map_or(d, |x| f(x))`: d, or what the closure returns (its body analysed with an unconstrained argument)
+            pl_ = flow.op_place(args[2])
+            d_ = self.du.single_def(pl_[0]) if pl_ and pl_[1] == () else None
+            cdef = d_[4].get("def") if d_ and d_[0] == "assign" and d_[4]["k"] == "agg" and d_[4].get("ak") == "closure" else None
+            cb_ = self.p.bodies.get(cdef) if cdef else None
+            if cb_ is not None:
+                civ = Intervals(self.p, cb_)
+                civ._depth = getattr(self, "_depth", 0) + 1
+                rets = [civ.at(rb, "t") for rb in cb_.return_blocks()]
+                rets = [r_.get(("i", 0)) for r_ in rets if r_ is not None]
+                if rets and all(r_ is not None for r_ in rets):
+                    out_ = self.iv_operand(st, args[1])
+                    for r_ in rets:
+                        out_ = out_.join(r_)
+                    st[key_i] = out_
+                    return
         if names.call_is(t, "Ord::clamp", "u8::clamp", "u16::clamp", "u32::clamp", "usize::clamp") and len(args) == 3:
             # clamp(v, lo, hi) = min(max(v, lo), hi)  (it panics when lo > hi: no value then)
             v, a, b = (self.iv_operand(st, x) for x in args)
